@@ -14,7 +14,7 @@ CHECKS = {
 CHECKS["C35"] = dict(
     category="exploration",
     technique="property-based testing: Hypothesis-generated faulted template sets, oracle = independent line arithmetic on the printed source vs. traceback / TemplateSyntaxError line",
-    text="Generated multi-template sets with exactly one runtime or syntax fault in a single-line tag under random nesting, multi-line neighbour tags, whitespace modifiers, three line-break forms, trim/lstrip, sync+async; the harness computes the fault's line by counting line breaks itself and requires the innermost template traceback frame (file and line) or TemplateSyntaxError.lineno/name/filename to match. 8k sets quick, 144k thorough; kills all six line-tracking mutants tried.",
+    text="Generated multi-template sets with exactly one runtime or syntax fault in a single-line tag under random nesting, multi-line neighbour tags, whitespace modifiers, three line-break forms, trim/lstrip, sync+async; the harness computes the fault's line by counting line breaks itself and requires the innermost template traceback frame (file and line) or TemplateSyntaxError.lineno/name/filename to match. 8k sets quick, 640k thorough; kills all six line-tracking mutants tried.",
     note="Fault tags are single-line so the expected line is unambiguous; faults inside multi-line tags are not judged.",
     design_ref="DESIGN.md §4 C35",
 )
